@@ -1720,3 +1720,60 @@ def pull_in_helpers(u, f, relpath, container, known, qual_prefix):
             out.append(h)
             todo.append(h)
     return out
+
+
+def unextend_iter(f):
+    """R5: `X.extend(Y.iter().copied())` -> `for xeK_ in 0..Y.len() { X.insert(Y[xeK_]); }` and
+    `X.extend(Y.iter().flatten().copied())` -> the two nested index loops (set / map-free collections: `insert`; the element order is the iteration order)"""
+    n = 0
+    while True:
+        m = re.search(r'([\w.]+)\.extend\(\s*([\w.]+)\.iter\(\)(\.flatten\(\))?\.copied\(\)\s*\);', f.body)
+        if not m:
+            break
+        x, y, flat = m.group(1), m.group(2), m.group(3)
+        k = f'xe{n}_'
+        if flat:
+            new = f'for {k} in 0..{y}.len() {{ for f{k} in 0..{y}[{k}].len() {{ {x}.insert({y}[{k}][f{k}]); }} }}'
+        else:
+            new = f'for {k} in 0..{y}.len() {{ {x}.insert({y}[{k}]); }}'
+        f.body = f.body[:m.start()] + new + f.body[m.end():]
+        n += 1
+    if n:
+        f.rewrites.append(('R5', f'{n}x `X.extend(Y.iter()[.flatten()].copied())` -> index loop(s) inserting each element', ''))
+    return f
+
+
+def unfirst_last_let_else(f):
+    """R1: `let (Some(&A), Some(&B)) = (X.first(), X.last()) else { ELSE };` -> `if X.len() == 0 { ELSE } let A = X[0]; let B = X[X.len() - 1];`
+    and the single forms `let Some(&A) = X.first() else { ELSE };` / `.last()`"""
+    n = 0
+    while True:
+        m = re.search(r'let \(Some\(&(\w+)\), Some\(&(\w+)\)\) = \((\w+)\.first\(\), (\w+)\.last\(\)\) else (\{)', f.body)
+        if m and m.group(3) == m.group(4):
+            c = match_brace(f.body, m.start(5))
+            e = c + 1
+            while e < len(f.body) and f.body[e] in ' \n\t':
+                e += 1
+            if e < len(f.body) and f.body[e] == ';':
+                e += 1
+            a, b, x = m.group(1), m.group(2), m.group(3)
+            f.body = f.body[:m.start()] + f'if {x}.len() == 0 {f.body[m.start(5):c + 1]} let {a} = {x}[0]; let {b} = {x}[{x}.len() - 1];' + f.body[e:]
+            n += 1
+            continue
+        m = re.search(r'let Some\(&(\w+)\) = (\w+)\.(first|last)\(\) else (\{)', f.body)
+        if m:
+            c = match_brace(f.body, m.start(4))
+            e = c + 1
+            while e < len(f.body) and f.body[e] in ' \n\t':
+                e += 1
+            if e < len(f.body) and f.body[e] == ';':
+                e += 1
+            a, x = m.group(1), m.group(2)
+            ix = '0' if m.group(3) == 'first' else f'{x}.len() - 1'
+            f.body = f.body[:m.start()] + f'if {x}.len() == 0 {f.body[m.start(4):c + 1]} let {a} = {x}[{ix}];' + f.body[e:]
+            n += 1
+            continue
+        break
+    if n:
+        f.rewrites.append(('R1', f'{n}x `let Some(&a) = xs.first()/last() else {{..}}` -> emptiness test + index', ''))
+    return f
